@@ -100,7 +100,21 @@ HexTab == [c \in {"0","1","2","3","4","5","6","7","8","9","a","b","c","d","e","f
                [] c \in {"d", "D"} -> 13 [] c \in {"e", "E"} -> 14 [] c \in {"f", "F"} -> 15]
 Hex2int(c) == IF c \in DOMAIN HexTab THEN HexTab[c] ELSE 16
 
-AllTok == TokSet \cup {Alphabet10[i] : i \in 1 .. Len(Alphabet10)}
+\* third space, "padded": the strings of the enumeration wrapped in long plain material, so that the whole target
+\* is longer than CleanPath's 128-byte stack buffer (path.go: stackBufSize), with the point where the cleaner has to
+\* modify the path behind byte 128 (long prefix: one long segment / many short segments), before it (long
+\* suffix) and in the middle.  A pad is <<prefix tokens, suffix tokens>>; a pad token is a run of 'a'.
+RECURSIVE Rep(_)
+Rep(n) == IF n = 0 THEN "" ELSE "a" \o Rep(n - 1)
+RECURSIVE Times(_, _)
+Times(seq, n) == IF n = 0 THEN << >> ELSE seq \o Times(seq, n - 1)
+Pad(pre, post) == <<pre, post>>
+Pads == << Pad(<<"/", Rep(125)>>, << >>),               \* 126 bytes in front: totals 126.. straddle 128
+           Pad(Times(<<"/", "a">>, 65), << >>),          \* 65 short segments in front (130 bytes)
+           Pad(<< >>, <<"/", Rep(130)>>),                \* modification first, 131 plain bytes behind it
+           Pad(<<"/", Rep(60)>>, <<"/", Rep(70)>>) >>    \* modification in the middle of 132+ bytes
+PadTok == {Rep(125), Rep(130), Rep(60), Rep(70)}
+AllTok == TokSet \cup {Alphabet10[i] : i \in 1 .. Len(Alphabet10)} \cup PadTok
 TokChars == [t \in AllTok |-> [i \in 1 .. Len(t) |-> SubSeq(t, i, i)]]
 RECURSIVE FlatFrom(_, _)
 FlatFrom(s, i) == IF i > Len(s) THEN << >> ELSE TokChars[s[i]] \o FlatFrom(s, i + 1)
